@@ -306,7 +306,7 @@ def _cases(ctx):
             out.append(("exhaustive", _case("finalize_decorator", plan, fin, None, None, False, True, scripts4)))
     combos = list(itertools.product([None, Y, RAISE, RET], [None, Y, RAISE], [None, Y, RAISE], [True, False]))
     for plan in plans_small:
-        cs = combos if (deep or G.size(plan) == 1) else rng.sample(combos, 6)
+        cs = combos if deep else rng.sample(combos, 36 if G.size(plan) == 1 else 4)
         for exc, els, fin, ar in cs:
             out.append(("exhaustive", _case("contingency_wrapper", plan, fin, exc, els, False, ar, scripts4)))
     if deep:
@@ -375,7 +375,7 @@ def run(ctx, model=True):
         "final in {empty, 1 msg, 2 msgs, raise} x pause_for_debug x EVERY script of length 4 over {next, send 7, throw E1, "
         "throw RequestStop, throw GeneratorExit, close; misuse of the fresh generator}; contingency_wrapper: wrapped plans "
         "with <=2 nodes x except in {none, msg, raise, msg+return value} x else/final in {none, msg, raise} x auto_raise "
-        "(all combinations for 1-node plans, sampled / thorough: all for 2-node plans) x the same scripts; random larger "
+        "(quick: half of the combinations for 1-node plans, 4 per 2-node plan; thorough: all) x the same scripts; random larger "
         "plans for every piece (try/finally with yields, nested yield from, loops, all exception classes) x random scripts "
         "of length 2-10 incl. RequestAbort, PlanHalt, BaseExc.  Each case runs on the real wrapper (final plan passed as "
         "callable and as instance alternately), on a plain-Python try/except/else/finally reference generator, instrumented "
